@@ -20,6 +20,7 @@
 -/
 import PercevalModel.Lemmas.C14Complex
 import PercevalModel.Lemmas.C14Life
+import PercevalModel.Lemmas.C14Sym
 import PercevalModel.Num.GQ
 
 open Matrix PM Complex
@@ -572,6 +573,357 @@ theorem shared_repaired_sound (p : Par) (ops : List POp) (hops : ∀ op ∈ ops,
     exact ⟨k, hw ▸ hk⟩
 
 end shared
+
+/-! ### Expression objects: the full expression language, Expressions of Expressions, overrides
+(`Model/C14Expr.lean`) -/
+
+section expression
+open PM.SM
+
+/-- `Expression.__float__` is `float(self.spv.subs({name: value}))`: substituting the numbers for the symbols and
+evaluating the closed expression is evaluating the expression at those values — for every interpretation of
+`pi`, `sin`, `cos`, `exp`, `sqrt`, `acos`. -/
+theorem expression_subs_then_float (I : Interp ℚ) (σ : String → Option ℚ) (e : XExpr) :
+    (e.subst σ).eval I (fun _ => none) = e.eval I σ := by
+  rw [XExpr.eval_subst]
+  congr 1
+  funext x
+  cases σ x <;> rfl
+
+/-- The value of an expression depends only on the values of the symbols that occur in it (any field, any
+interpretation of the functions). -/
+theorem xexpr_depends_on_vars {K : Type*} [Field K] [DecidableEq K] (I : Interp K) (e : XExpr)
+    (env₁ env₂ : String → Option K) (h : ∀ x ∈ e.vars, env₁ x = env₂ x) : e.eval I env₁ = e.eval I env₂ :=
+  e.eval_congr I h
+
+/-- The full language extends the first one (`expr_live`): same symbols, same value. -/
+theorem xexpr_extends_expr (I : Interp ℚ) (env : String → Option ℚ) (e : Expr) :
+    e.toX.vars = e.vars ∧ e.toX.eval I env = e.eval env :=
+  ⟨e.toX_vars, e.toX_eval I env⟩
+
+/-- Nothing done to an Expression object (creation, `set_value`, `fix_value`, `reset`, binding to slots) writes
+back into the raw parameters: after any history they are what the operations addressed to them alone produce. -/
+theorem expression_ops_do_not_touch_parameters (sound : Bool) (s : XSt) (ops : List XOp) :
+    (exec (xstep sound) s ops).1 = exec (sstep sound) s.1 (XOp.baseOps ops) :=
+  xexec_fst sound s ops
+
+/-- MAIN (expressions are live).  Take any state, an Expression object `id` that is live in it (no override,
+e.g. freshly made), and ANY history — `set_value` / `fix_value` / `reset` / `assign` on the raw parameters,
+creation of parameters and of other Expression objects, binding of `id` to any number of component slots,
+`reset` / `set_periodic` on `id`, anything on other Expression objects — in which `id` itself is not given a value.
+Then a component slot holding `id` reads: `ValueError` while a sub-parameter has no value, otherwise the
+expression evaluated at the CURRENT values of the raw parameters (`TypeError` when that is not a real number). -/
+theorem expression_live (sound : Bool) (I : Interp ℚ) (s : XSt) (id : String) (o : EObj) (ops : List XOp)
+    (h0 : s.2 id = some o) (hl : o.Live) (hc : ∀ op ∈ ops, op.creates id = false)
+    (hov : ∀ op ∈ XOp.objOps id ops, op.overrides = false) :
+    slotFloat I (exec (xstep sound) s ops) (.ex id) =
+      if (o.e.vars.all fun x => (LStore.env (exec (xstep sound) s ops).1 x).isSome)
+      then floatOfEval (o.e.eval I (LStore.env (exec (xstep sound) s ops).1))
+      else .inl .ValueError := by
+  simp only [slotFloat]
+  rw [xexec_obj sound s ops id o h0 hc]
+  simp only
+  rw [EObj.float_live I _ _ (exec_estep_live sound o _ hl hov)]
+  unfold EObj.defined
+  rw [exec_estep_e]
+
+/-- …in particular from the creation of the Expression object on, whatever happened before. -/
+theorem expression_live_from_creation (sound : Bool) (I : Interp ℚ) (s : XSt) (id : String) (e : XExpr)
+    (post : List XOp) (hc : ∀ op ∈ post, op.creates id = false)
+    (hov : ∀ op ∈ XOp.objOps id post, op.overrides = false) :
+    slotFloat I (exec (xstep sound) s (.xnew id e :: post)) (.ex id) =
+      if (e.vars.all fun x => (LStore.env (exec (xstep sound) s (.xnew id e :: post)).1 x).isSome)
+      then floatOfEval (e.eval I (LStore.env (exec (xstep sound) s (.xnew id e :: post)).1))
+      else .inl .ValueError := by
+  rw [exec_cons]
+  exact expression_live sound I _ id (EObj.init e) post (by simp [xstep]) (EObj.init_live e) hc hov
+
+/-- `set_value` on an Expression OBJECT (code as it is): an accepted call stores the value, checked and wrapped
+against the bounds / periodic flag the object got from the slots it sits in, and from then on the object is
+that CONSTANT: whatever is done afterwards to the raw parameters, to other objects, whatever slots the object
+is bound to, a component reads `w` (or `ValueError` while a sub-parameter has no value) — until `reset()`. -/
+theorem expression_override_freezes (sound : Bool) (I : Interp ℚ) (s : XSt) (id : String) (o : EObj) (v : ℚ)
+    (force : Bool) (post : List XOp) (h0 : s.2 id = some o)
+    (hok : (xstep sound s (.xpar id (.set v force))).2 = none)
+    (hc : ∀ op ∈ post, op.creates id = false)
+    (hk : ∀ op ∈ XOp.objOps id post, op.keepsValue = true) :
+    ∃ w, o.par.check v = .inr w ∧
+      slotFloat I (exec (xstep sound) s (.xpar id (.set v force) :: post)) (.ex id) =
+        if (o.e.vars.all fun x =>
+          (LStore.env (exec (xstep sound) s (.xpar id (.set v force) :: post)).1 x).isSome)
+        then .inr w else .inl .ValueError := by
+  have hok' : (estep sound o (.set v force)).2 = none := by simpa [xstep, h0] using hok
+  obtain ⟨w, hw, hval⟩ := estep_set_ok sound o v force hok'
+  refine ⟨w, hw, ?_⟩
+  rw [exec_cons]
+  simp only [slotFloat]
+  rw [xexec_obj sound _ post id (estep sound o (.set v force)).1 (by simp [xstep, h0]) hc]
+  simp only
+  rw [EObj.float_override I _ _ ((exec_estep_val sound _ _ hk).trans hval)]
+  unfold EObj.defined
+  rw [exec_estep_e, estep_e]
+
+/-- `reset()` on an Expression object that still has its `_symbol` makes it live again. -/
+theorem expression_reset_restores (sound : Bool) (o : EObj) (h : o.par.sym = true) :
+    (estep sound o .reset).1.Live ∧ (estep sound o .reset).1.e = o.e := by
+  simp [estep, pstep, EObj.Live, h]
+
+/-- The value of an Expression is never checked against, nor wrapped into, the bounds its object gets from the
+slots it is plugged in: binding one Expression object to any number of slots (and flipping its periodic flag)
+changes nothing in what it evaluates to. -/
+theorem expression_value_ignores_bounds (sound : Bool) (I : Interp ℚ) (st : LStore) (o : EObj) (ops : List POp)
+    (h : ∀ op ∈ ops, op.boundsOnly = true) : (exec (estep sound) o ops).float I st = o.float I st := by
+  obtain ⟨a, b, c⟩ := exec_estep_boundsOnly sound o ops h
+  exact EObj.float_congr I st o _ a b c
+
+/-- Expressions of Expressions: `e1 + e2`, `e1 - e2`, `e1 * e2`, `e1 / e2` made with the overloaded operators
+evaluate to the operator applied to the current values of the two operand expressions. -/
+theorem expression_of_expressions (I : Interp ℚ) (st : LStore) (a b : EObj) {x y : ℚ}
+    (ha : a.e.eval I (LStore.env st) = some x) (hb : b.e.eval I (LStore.env st) = some y) :
+    (EObj.binop .add a b).float I st = .inr (x + y) ∧ (EObj.binop .sub a b).float I st = .inr (x - y) ∧
+      (EObj.binop .mul a b).float I st = .inr (x * y) ∧ (y ≠ 0 → (EObj.binop .div a b).float I st = .inr (x / y)) := by
+  have hd : ∀ op : XExpr → XExpr → XExpr, (op a.e b.e).vars = a.e.vars ++ b.e.vars →
+      (EObj.binop op a b).defined st = true := by
+    intro op hop
+    unfold EObj.defined EObj.binop EObj.init
+    simp only [hop, List.all_append, Bool.and_eq_true, List.all_eq_true]
+    exact ⟨XExpr.eval_some_defined I a.e ha, XExpr.eval_some_defined I b.e hb⟩
+  have hf : ∀ op : XExpr → XExpr → XExpr, (EObj.binop op a b).defined st = true →
+      (EObj.binop op a b).float I st = floatOfEval ((op a.e b.e).eval I (LStore.env st)) := by
+    intro op h
+    have h' : (EObj.init (op a.e b.e)).defined st = true := h
+    show (EObj.init (op a.e b.e)).float I st = _
+    rw [EObj.float_live I st _ (EObj.init_live _), h']
+    rfl
+  refine ⟨?_, ?_, ?_, ?_⟩
+  · rw [hf _ (hd _ rfl)]; simp [XExpr.eval, ha, hb, floatOfEval]
+  · rw [hf _ (hd _ rfl)]; simp [XExpr.eval, ha, hb, floatOfEval]
+  · rw [hf _ (hd _ rfl)]; simp [XExpr.eval, ha, hb, floatOfEval]
+  · intro hy
+    rw [hf _ (hd _ rfl)]; simp [XExpr.eval, ha, hb, floatOfEval, hy]
+
+/-- …and such a composed Expression is built from the TREES of its operands (their names), not from the
+objects: it does not see an override (`set_value`) of an operand, nor its bounds. -/
+theorem expression_composition_ignores_override (op : XExpr → XExpr → XExpr) (a b a' b' : EObj)
+    (ha : a'.e = a.e) (hb : b'.e = b.e) : EObj.binop op a' b' = EObj.binop op a b := by
+  unfold EObj.binop
+  rw [ha, hb]
+
+/-- The symbolic branch reads `spv` of a slot, the numeric branch `float()`: whatever the slot holds (a number,
+a raw parameter, an Expression object — live or overridden), when `float()` gives `v` the expression `spv`
+evaluated at the current values of the raw parameters is `v`. -/
+theorem slot_spv_evaluates_to_float (I : Interp ℚ) (S : XSt) (r : SlotRef) {v : ℚ}
+    (h : slotFloat I S r = .inr v) :
+    ∃ e, slotSpv S r = some e ∧ e.eval I (LStore.env S.1) = some v := by
+  cases r with
+  | par key =>
+    unfold slotFloat at h
+    cases hk : S.1 key with
+    | none => simp [hk] at h
+    | some p =>
+      simp only [hk] at h
+      cases hv : p.val with
+      | none => simp [hv] at h
+      | some w =>
+        simp only [hv, Sum.inr.injEq] at h
+        subst h
+        exact ⟨.const w, by simp [slotSpv, hk, Par.spv, hv], by simp [XExpr.eval]⟩
+  | ex id =>
+    unfold slotFloat at h
+    cases hk : S.2 id with
+    | none => simp [hk] at h
+    | some o =>
+      simp only [hk] at h
+      unfold EObj.float at h
+      by_cases hd : o.defined S.1 = true
+      · simp only [hd, Bool.not_true, Bool.false_eq_true, if_false] at h
+        cases hv : o.par.val with
+        | some w =>
+          simp only [hv, Sum.inr.injEq] at h
+          subst h
+          exact ⟨.const w, by simp [slotSpv, hk, EObj.spv, hv], by simp [XExpr.eval]⟩
+        | none =>
+          simp only [hv] at h
+          by_cases hs : o.par.sym = true
+          · simp only [hs, if_true] at h
+            cases he : o.e.eval I (LStore.env S.1) with
+            | none => simp [he, floatOfEval] at h
+            | some w =>
+              simp only [he, floatOfEval, Sum.inr.injEq] at h
+              subst h
+              exact ⟨o.e, by simp [slotSpv, hk, EObj.spv, hv, hs], he⟩
+          · simp [hs] at h
+      · simp [hd] at h
+  | lit e =>
+    unfold slotFloat at h
+    cases he : e.eval I (LStore.env S.1) with
+    | none => simp [he, floatOfEval] at h
+    | some w =>
+      simp only [he, floatOfEval, Sum.inr.injEq] at h
+      subst h
+      exact ⟨e, rfl, he⟩
+
+end expression
+
+/-! ### the symbolic branch (`use_symbolic=True`) of every leaf (`Model/C14Sym.lean`) -/
+
+section symbolic
+
+/-- Beam splitter, all conventions: whatever the five slots hold symbolically (numbers, free symbols, trees of
+Expressions), at EVERY assignment of real values to the symbols at which the slots evaluate to `t, a, b, c, d`
+each entry of the symbolic matrix evaluates to the entry of the documented matrix at these angles, which is
+also what the numeric branch computes there. -/
+theorem symbolic_bs (conv : Conv) (θ tl bl tr br : XExpr) (env : String → Option ℝ) {t a b c d : ℝ}
+    (hθ : θ.evalR env = some t) (htl : tl.evalR env = some a) (hbl : bl.evalR env = some b)
+    (htr : tr.evalR env = some c) (hbr : br.evalR env = some d) :
+    (∀ i j, (symBS conv θ tl bl tr br i j).evalC env = some (bsDoc conv t a b c d i j)) ∧
+      bsNum I conv (angR (t / 2)) (angR a) (angR b) (angR c) (angR d) = bsDoc conv t a b c d := by
+  refine ⟨?_, (bs_complex conv t a b c d).1⟩
+  have hc := evalC_re (evalR_cos (evalR_half hθ))
+  have hs := evalC_re (evalR_sin (evalR_half hθ))
+  intro i j
+  fin_cases i <;> fin_cases j
+  · have := evalC_mul (templateS_evalC env conv 0 0) (evalC_mul (evalC_expI (evalR_add htl htr)) hc)
+    simp only [symBS, Fin.zero_eta, Fin.isValue, of_apply, cons_val', cons_val_zero, cons_val_fin_one] at this ⊢
+    rw [this]
+    cases conv <;> simp [template, bsDoc]
+  · have := evalC_mul (templateS_evalC env conv 0 1) (evalC_mul (evalC_expI (evalR_add htr hbl)) hs)
+    simp only [symBS, Fin.zero_eta, Fin.mk_one, Fin.isValue, of_apply, cons_val', cons_val_zero, cons_val_one,
+      cons_val_fin_one] at this ⊢
+    rw [this]
+    cases conv <;> simp [template, bsDoc] <;> ring
+  · have := evalC_mul (templateS_evalC env conv 1 0) (evalC_mul (evalC_expI (evalR_add htl hbr)) hs)
+    simp only [symBS, Fin.zero_eta, Fin.mk_one, Fin.isValue, of_apply, cons_val', cons_val_zero, cons_val_one,
+      cons_val_fin_one] at this ⊢
+    rw [this]
+    cases conv <;> simp [template, bsDoc] <;> ring
+  · have := evalC_mul (templateS_evalC env conv 1 1) (evalC_mul (evalC_expI (evalR_add hbr hbl)) hc)
+    simp only [symBS, Fin.mk_one, Fin.isValue, of_apply, cons_val', cons_val_one, cons_val_fin_one] at this ⊢
+    rw [this]
+    cases conv <;> simp [template, bsDoc]
+
+/-- Phase shifter (`max_error = 0`). -/
+theorem symbolic_ps (φ : XExpr) (env : String → Option ℝ) {x : ℝ} (hφ : φ.evalR env = some x) :
+    (∀ i j, (symPS φ i j).evalC env = some (psDoc x i j)) ∧ psNum I (angR x) = psDoc x := by
+  refine ⟨?_, (ps_complex x).1⟩
+  intro i j
+  fin_cases i; fin_cases j
+  simpa [symPS, psDoc] using evalC_expI hφ
+
+/-- Wave plate: both slots symbolic. -/
+theorem symbolic_wp (δ ξ : XExpr) (env : String → Option ℝ) {d x : ℝ} (hδ : δ.evalR env = some d)
+    (hξ : ξ.evalR env = some x) :
+    (∀ i j, (symWP δ ξ i j).evalC env = some (wpDoc d x i j)) ∧ wp I (angR d) (angR x) = wpDoc d x := by
+  refine ⟨?_, (wp_complex d x).1⟩
+  have hcd := evalC_re (evalR_cos hδ)
+  have hsd := evalC_re (evalR_sin hδ)
+  have hc2 := evalC_re (evalR_cos (evalR_dbl hξ))
+  have hs2 := evalC_re (evalR_sin (evalR_dbl hξ))
+  have hI := evalC_I env
+  intro i j
+  fin_cases i <;> fin_cases j
+  · have := evalC_add hcd (evalC_mul (evalC_mul hI hsd) hc2)
+    simp only [symWP, Fin.zero_eta, Fin.isValue, of_apply, cons_val', cons_val_zero, cons_val_fin_one] at this ⊢
+    rw [this]; simp [wpDoc]; ring
+  · have := evalC_mul (evalC_mul hI hsd) hs2
+    simp only [symWP, Fin.zero_eta, Fin.mk_one, Fin.isValue, of_apply, cons_val', cons_val_zero, cons_val_one,
+      cons_val_fin_one] at this ⊢
+    rw [this]; simp [wpDoc]
+  · have := evalC_mul (evalC_mul hI hsd) hs2
+    simp only [symWP, Fin.zero_eta, Fin.mk_one, Fin.isValue, of_apply, cons_val', cons_val_zero, cons_val_one,
+      cons_val_fin_one] at this ⊢
+    rw [this]; simp [wpDoc]
+  · have := evalC_sub hcd (evalC_mul (evalC_mul hI hsd) hc2)
+    simp only [symWP, Fin.mk_one, Fin.isValue, of_apply, cons_val', cons_val_one, cons_val_fin_one] at this ⊢
+    rw [this]; simp [wpDoc]; ring
+
+/-- Half- and quarter-wave plates: `WP(sp.pi/2, ξ)`, `WP(sp.pi/4, ξ)` — the first slot holds the exact number. -/
+theorem symbolic_hwp_qwp (ξ : XExpr) (env : String → Option ℝ) {x : ℝ} (hξ : ξ.evalR env = some x) :
+    (∀ i j, (symHWP ξ i j).evalC env = some (wpDoc (Real.pi / 2) x i j)) ∧
+      (∀ i j, (symQWP ξ i j).evalC env = some (wpDoc (Real.pi / 4) x i j)) := by
+  have h2 : (XExpr.div .pi (.const 2)).evalR env = some (Real.pi / 2) := by
+    simp [XExpr.evalR, XExpr.eval]
+  have h4 : (XExpr.div .pi (.const 4)).evalR env = some (Real.pi / 4) := by
+    simp [XExpr.evalR, XExpr.eval]
+  exact ⟨(symbolic_wp _ ξ env h2 hξ).1, (symbolic_wp _ ξ env h4 hξ).1⟩
+
+/-- Polarisation rotator. -/
+theorem symbolic_pr (δ : XExpr) (env : String → Option ℝ) {d : ℝ} (hδ : δ.evalR env = some d) :
+    (∀ i j, (symPR δ i j).evalC env = some (prDoc d i j)) ∧ pr (angR d) = prDoc d := by
+  refine ⟨?_, (pr_complex d).1⟩
+  have hc := evalC_re (evalR_cos hδ)
+  have hs := evalC_re (evalR_sin hδ)
+  intro i j
+  fin_cases i <;> fin_cases j
+  · simpa [symPR, prDoc] using hc
+  · simpa [symPR, prDoc] using hs
+  · simpa [symPR, prDoc] using evalC_neg hs
+  · simpa [symPR, prDoc] using hc
+
+/-- The numeric and symbolic branches read DIFFERENT things from a slot (`float()` / `spv`), and they agree:
+when every slot of a beam splitter reads a value (`float()`), the `spv` expressions exist, evaluate at the
+current values of the raw parameters to exactly these values (`slot_spv_evaluates_to_float`) — so, by
+`symbolic_bs`, the symbolic matrix evaluated at the current values is the numeric one.  Stated for the slot
+layer (all five slots at once, every interpretation of the functions, every state). -/
+theorem bs_slots_spv_agree_with_float (I : Interp ℚ) (S : XSt) (slots : Fin 5 → SlotRef) (vals : Fin 5 → ℚ)
+    (h : ∀ k, slotFloat I S (slots k) = .inr (vals k)) :
+    ∃ es : Fin 5 → XExpr, ∀ k, slotSpv S (slots k) = some (es k) ∧
+      (es k).eval I (LStore.env S.1) = some (vals k) := by
+  choose es hes using fun k => slot_spv_evaluates_to_float I S (slots k) (h k)
+  exact ⟨es, hes⟩
+
+/-! base change: the ring-polymorphic component definitions commute with every ring homomorphism — the symbolic
+matrix is the SAME definition over a ring of expressions, and evaluating its entries (a ring homomorphism to
+the complex numbers) gives the numeric matrix. -/
+
+theorem bs_base_change {R S : Type*} [CommRing R] [CommRing S] (f : R →+* S) (I : R) (conv : Conv)
+    (c s ptl pbl ptr pbr : R) :
+    (bs I conv c s ptl pbl ptr pbr).map f = bs (f I) conv (f c) (f s) (f ptl) (f pbl) (f ptr) (f pbr) :=
+  bs_map' f I conv c s ptl pbl ptr pbr
+
+theorem bsNum_base_change {R S : Type*} [CommRing R] [CommRing S] (f : R →+* S) (I : R) (conv : Conv)
+    (h tl bl tr br : Ang R) :
+    (bsNum I conv h tl bl tr br).map f =
+      bsNum (f I) conv ⟨f h.c, f h.s⟩ ⟨f tl.c, f tl.s⟩ ⟨f bl.c, f bl.s⟩ ⟨f tr.c, f tr.s⟩ ⟨f br.c, f br.s⟩ :=
+  bsNum_map' f I conv h tl bl tr br
+
+theorem ps_wp_pr_base_change {R S : Type*} [CommRing R] [CommRing S] (f : R →+* S) (I p : R) (a d x : Ang R) :
+    (ps p).map f = ps (f p) ∧ (psNum I a).map f = psNum (f I) ⟨f a.c, f a.s⟩ ∧
+      (wp I d x).map f = wp (f I) ⟨f d.c, f d.s⟩ ⟨f x.c, f x.s⟩ ∧ (pr d).map f = pr ⟨f d.c, f d.s⟩ :=
+  ⟨ps_map' f p, psNum_map' f I a, wp_map' f I d x, pr_map' f d⟩
+
+/-- `PERM` and `PBS` hold a numeric matrix whatever `use_symbolic` is; it is the same 0/1 matrix over every ring. -/
+theorem perm_base_change {R S : Type*} [CommRing R] [CommRing S] (f : R →+* S) {n : ℕ} (σ : Fin n → Fin n) :
+    (permMat (R := R) σ).map f = permMat σ ∧ (pbs (R := R)).map f = pbs :=
+  ⟨permMat_map' f σ, permMat_map' f pbsPerm⟩
+
+/-- The beam splitter over the FREE commutative ring on seven symbols `i, c, s, p_tl, p_bl, p_tr, p_br`
+(polynomials with integer coefficients), specialised at `i ↦ I`, `c ↦ cos(θ/2)`, `s ↦ sin(θ/2)`,
+`p_x ↦ e^{iφ_x}`, is the documented matrix: for all real angles. -/
+theorem bs_free_ring_specialises (conv : Conv) (θ φtl φbl φtr φbr : ℝ) :
+    (bs (MvPolynomial.X 0 : MvPolynomial (Fin 7) ℤ) conv (MvPolynomial.X 1) (MvPolynomial.X 2)
+        (MvPolynomial.X 3) (MvPolynomial.X 4) (MvPolynomial.X 5) (MvPolynomial.X 6)).map
+      (MvPolynomial.aeval (R := ℤ)
+        (![Complex.I, (Real.cos (θ / 2) : ℂ), (Real.sin (θ / 2) : ℂ), ph φtl, ph φbl, ph φtr, ph φbr] : Fin 7 → ℂ))
+      = bsDoc conv θ φtl φbl φtr φbr := by
+  have := bs_map' (MvPolynomial.aeval (R := ℤ)
+      (![Complex.I, (Real.cos (θ / 2) : ℂ), (Real.sin (θ / 2) : ℂ), ph φtl, ph φbl, ph φtr, ph φbr] :
+        Fin 7 → ℂ)).toRingHom
+    (MvPolynomial.X 0) conv (MvPolynomial.X 1) (MvPolynomial.X 2) (MvPolynomial.X 3) (MvPolynomial.X 4)
+    (MvPolynomial.X 5) (MvPolynomial.X 6)
+  simp only [AlgHom.toRingHom_eq_coe, RingHom.coe_coe, MvPolynomial.aeval_X] at this
+  rw [this]
+  simpa using (bs_complex conv θ φtl φbl φtr φbr).2.1
+
+/-- `PBS()` is the permutation `[2, 1, 0, 3]` of the doubled modes: the documented 4×4 matrix, unitary. -/
+theorem pbs_matrix {R : Type*} [CommRing R] [StarRing R] :
+    (pbs : Matrix (Fin 4) (Fin 4) R) = !![0, 0, 1, 0; 0, 1, 0, 0; 1, 0, 0, 0; 0, 0, 0, 1] ∧
+      IsUnitary (pbs : Matrix (Fin 4) (Fin 4) R) := by
+  refine ⟨?_, permMat_isUnitary (by decide)⟩
+  ext i j
+  fin_cases i <;> fin_cases j <;> simp [pbs, permMat, pbsPerm]
+
+end symbolic
 
 /-! ### non-vacuity -/
 
